@@ -14,9 +14,9 @@ cargo test --offline --lib --test integration </dev/null 2>&1 | grep -E "^test r
 echo "== (2) demo WITH change (expect FAIL)"
 for t in $demos; do cargo test --offline --test $t </dev/null 2>&1 | grep -E "^test result|error(\[|:)" | head -3; done
 echo "== (3) demo WITHOUT change (expect ok)"
-git stash push -q -- src Cargo.toml
+git checkout -q -- src Cargo.toml   # (not git stash: the stash is shared by all worktrees)
 find src tests -name "*.rs" -exec touch {} +
 for t in $demos; do cargo test --offline --test $t </dev/null 2>&1 | grep -E "^test result|error(\[|:)" | head -3; done
-git stash pop -q
+git apply /tmp/confirm-$n.diff
 find src tests -name "*.rs" -exec touch {} +
 git diff --stat -- src Cargo.toml | tail -1
